@@ -591,10 +591,13 @@ let run path =
       List.iter
         (fun l ->
           Buffer.clear buf;
+          (* an op line the current model cannot even parse (e.g. a discriminant that the
+             regenerated enum table no longer / not yet contains) is a disagreement on that line,
+             not a reason to lose the rest of the stream *)
           (try run_op buf l
-           with e ->
-             prerr_endline ("codec: driver failure on op line: " ^ (if String.length l > 200 then String.sub l 0 200 ^ "..." else l));
-             raise e);
+           with Failure msg ->
+             Buffer.clear buf;
+             Buffer.add_string buf ("MODEL-CANNOT-READ " ^ msg ^ "\n"));
           Buffer.output_buffer stdout buf)
         ops)
     (read_cases path)
